@@ -31,7 +31,19 @@ ImageOK(x) == LET m == ModelOf(x.model) IN
 LookupOK(x) == LET res == LK!Lookup(x.kt, x.q) IN
                /\ x.panic = ""
                /\ IF res = {} THEN x.err ELSE (~x.err /\ x.got \in res /\ x.gotKvno = x.kt[x.got].kvno)
-LineOK(x) == IF x.ev = "image" THEN ImageOK(x) ELSE LookupOK(x)
+\* ---- the writer of this specification against MIT Kerberos' reader (validation of KeytabFormat, not of gokrb5): MIT reports
+\* realm, components, name type (version 2 files), key version (32-bit field if present and non-zero, else the 8-bit one),
+\* time stamp, key type (a signed 16-bit field) and key of every entry, in file order
+MITProj(es) == [i \in 1..Len(es) |-> [realm |-> H(es[i].realm), comps |-> [j \in 1..Len(es[i].comps) |-> H(es[i].comps[j])],
+                                      nameType |-> H(es[i].nameType), ts |-> H(es[i].ts), ktype |-> U16(es[i].ktype), key |-> H(es[i].key), kvno |-> H(es[i].kvno)]]
+MITExp(m) == LET e == Expected(m) IN
+             [i \in 1..Len(e) |-> [realm |-> e[i].realm, comps |-> e[i].comps, nameType |-> e[i].nameType, ts |-> e[i].ts, ktype |-> U16(e[i].ktype),
+                                   key |-> e[i].key, kvno |-> e[i].kvno]]
+NoNameType(es) == [i \in 1..Len(es) |-> [es[i] EXCEPT !.nameType = Zero4]]
+MITOK(x) == LET m == ModelOf(x.model) IN
+            /\ Render(m) = H(x.image) /\ x.rc = 0
+            /\ IF m.version = 2 THEN MITProj(x.entries) = MITExp(m) ELSE NoNameType(MITProj(x.entries)) = MITExp(m)
+LineOK(x) == CASE x.ev = "image" -> ImageOK(x) [] x.ev = "mit" -> MITOK(x) [] OTHER -> LookupOK(x)
 Init == LT!Init
 Next == LT!Next
 Check == ~LT!Active \/ LineOK(Tr[l]) \/ PrintT(<<"BADLINE", l>>)
